@@ -627,7 +627,25 @@ fn non_acquiring(env: &Env, tid: Tid, label: &str, f: impl FnOnce()) {
 		Err(p) => match classify_panic(p) {
 			PanicKind::Abort => {}
 			PanicKind::Fault => {}
-			PanicKind::User => {}
+			PanicKind::User => {
+				// user code called back by the operation (the payload's own Debug)
+				// panicked: whatever the operation took for itself must be gone
+				if before != after && !env.exec.is_abort() {
+					let what = label.split(' ').next().unwrap_or("");
+					env.finding(
+						"C17",
+						tid,
+						format!("disturbs|{what}|payload-panicked"),
+						format!("non-acquiring operation `{label}` was abandoned by a panic of the payload's own code and left the hold state of the locks changed"),
+					);
+					env.finding(
+						"C11",
+						tid,
+						format!("leak-after-panic|{what}"),
+						format!("a panic in user code called by `{label}` (the payload's Debug) left locks held"),
+					);
+				}
+			}
 			PanicKind::Killed(_) => {}
 			PanicKind::Other(m) => env.finding("PANIC", tid, format!("unexpected-panic|nonacq|{}", first_words(&m)), m),
 		},
@@ -849,8 +867,8 @@ pub fn run_step(env: &Env, ctx: &mut ThreadCtx, idx: usize, step: &Step) -> Step
 			}
 		}
 		Step::UnwindingDrop { inner } => {
-			if matches!(**inner, Step::Scoped { .. }) {
-				env.label("scoped_call_in_destructor_during_unwind");
+			if matches!(**inner, Step::Scoped { .. } | Step::GetKey) {
+				env.label(if matches!(**inner, Step::GetKey) { "get_key_in_destructor_during_unwind" } else { "scoped_call_in_destructor_during_unwind" });
 				struct OnDrop<F: FnMut()>(F);
 				impl<F: FnMut()> Drop for OnDrop<F> {
 					fn drop(&mut self) {
